@@ -107,7 +107,7 @@ def oracle(rd_out, ard_out):
 def run_prim(chk, replay=None):
     gate, hb = core.std_setup(chk)
     rng = random.Random(chk.seed)
-    n = 9000 if chk.tier == "quick" else 200000
+    n = 9000 if chk.tier == "quick" else 800000
     upto = 10 if chk.tier == "quick" else 14
     if replay is not None:
         items = [(replay["rd"], replay["ard"], "replay")]
